@@ -455,6 +455,10 @@ func evalImportStmt(vm *r.VM, node *syntax.ImportStmt) error {
 			}
 			// After executing the module, find it again to get the module object
 			extModule = newModule
+		} else {
+			// the module has been loaded before: still record that current module
+			// depends on it - this is the edge that may close a dependency cycle
+			vm.AddDependency(extLibName)
 		}
 		// check circular dependency
 		if err2 := vm.CheckDepedency(extLibName); err2 != nil {
